@@ -365,7 +365,8 @@ func processTimeBlocks(allRequests chan *timeBlockRequest, wg *sync.WaitGroup, r
 // call ReturnTimeBuffers() on it to return the buffers to rawTimestampsBufferPool.
 func ReadAllTimestampsForBlock(blkNums map[uint16]struct{}, segKey string,
 	blockSummaries []*structs.BlockSummary, parallelism int64,
-) (map[uint16][]uint64, error) {
+) (_ map[uint16][]uint64, panicErr error) {
+	defer utils.RecoverToError(&panicErr, "ReadAllTimestampsForBlock: "+segKey)
 	if len(blkNums) == 0 {
 		return make(map[uint16][]uint64), nil
 	}
